@@ -16,6 +16,14 @@ pub unsafe fn unpark_filter(_key: usize, _filter: impl FnMut(ParkToken) -> Filte
 pub fn spin(_s: &mut parking_lot_core::SpinWait) -> bool { panic!("lock contended in sequential harness (self-deadlock)") }
 pub fn spin_no_yield(_s: &mut parking_lot_core::SpinWait) { panic!("lock contended in sequential harness (self-deadlock)") }
 
+// parking_lot's own slow paths: reached only when a lock is already held (sequentially: self-deadlock)
+pub fn rw_lock_exclusive_slow(_l: &parking_lot::RawRwLock, _timeout: Option<Instant>) -> bool { panic!("RwLock write-locked while held (self-deadlock)") }
+pub fn rw_lock_shared_slow(_l: &parking_lot::RawRwLock, _recursive: bool, _timeout: Option<Instant>) -> bool { panic!("RwLock read-locked while write-held (self-deadlock)") }
+pub fn rw_unlock_exclusive_slow(_l: &parking_lot::RawRwLock, _force_fair: bool) { panic!("RwLock unlock with parked threads in a sequential harness") }
+pub fn rw_unlock_shared_slow(_l: &parking_lot::RawRwLock) { panic!("RwLock unlock with parked threads in a sequential harness") }
+pub fn mutex_lock_slow(_l: &parking_lot::RawMutex, _timeout: Option<Instant>) -> bool { panic!("Mutex locked while held (self-deadlock)") }
+pub fn mutex_unlock_slow(_l: &parking_lot::RawMutex, _force_fair: bool) { panic!("Mutex unlock with parked threads in a sequential harness") }
+
 macro_rules! verif_harness {
     ($(#[$m:meta])* fn $name:ident() $body:block) => {
         #[kani::proof]
@@ -26,6 +34,12 @@ macro_rules! verif_harness {
         #[kani::stub(parking_lot_core::unpark_filter, crate::verif_stubs::unpark_filter)]
         #[kani::stub(parking_lot_core::SpinWait::spin, crate::verif_stubs::spin)]
         #[kani::stub(parking_lot_core::SpinWait::spin_no_yield, crate::verif_stubs::spin_no_yield)]
+        #[kani::stub(parking_lot::RawRwLock::lock_exclusive_slow, crate::verif_stubs::rw_lock_exclusive_slow)]
+        #[kani::stub(parking_lot::RawRwLock::lock_shared_slow, crate::verif_stubs::rw_lock_shared_slow)]
+        #[kani::stub(parking_lot::RawRwLock::unlock_exclusive_slow, crate::verif_stubs::rw_unlock_exclusive_slow)]
+        #[kani::stub(parking_lot::RawRwLock::unlock_shared_slow, crate::verif_stubs::rw_unlock_shared_slow)]
+        #[kani::stub(parking_lot::RawMutex::lock_slow, crate::verif_stubs::mutex_lock_slow)]
+        #[kani::stub(parking_lot::RawMutex::unlock_slow, crate::verif_stubs::mutex_unlock_slow)]
         $(#[$m])*
         fn $name() $body
     };
@@ -71,4 +85,80 @@ impl<T, const S: usize> StackArcSlice<T, S> {
 pub(crate) trait MapInsertAt<K, V> { fn verif_insert_at(&mut self, slot: usize, k: K, v: V); }
 impl<K: Eq + std::hash::Hash, V> MapInsertAt<K, V> for hashbrown::HashMap<K, V> {
     fn verif_insert_at(&mut self, _slot: usize, k: K, v: V) { self.insert(k, v); }
+}
+
+/// X3 stand-in for std::collections::HashSet in the eviction sampler (ASSUMED contract: a set).
+/// Eight named-by-index slots, no hashing, no heap.
+pub(crate) struct HashSet<T> { slots: [Option<T>; 6] }
+impl<T: Eq + Copy> HashSet<T> {
+    pub(crate) fn new() -> Self { HashSet { slots: [None; 6] } }
+    fn at(&self, i: usize, v: &T) -> bool { self.slots[i] == Some(*v) }
+    pub(crate) fn contains(&self, v: &T) -> bool {
+        self.at(0, v) || self.at(1, v) || self.at(2, v) || self.at(3, v) || self.at(4, v) || self.at(5, v)
+    }
+    pub(crate) fn insert(&mut self, v: T) -> bool {
+        if self.contains(&v) { return false; }
+        if self.slots[0].is_none() { self.slots[0] = Some(v); return true; }
+        if self.slots[1].is_none() { self.slots[1] = Some(v); return true; }
+        if self.slots[2].is_none() { self.slots[2] = Some(v); return true; }
+        if self.slots[3].is_none() { self.slots[3] = Some(v); return true; }
+        if self.slots[4].is_none() { self.slots[4] = Some(v); return true; }
+        if self.slots[5].is_none() { self.slots[5] = Some(v); return true; }
+        panic!("HashSet stand-in capacity exceeded");
+    }
+    pub(crate) fn remove(&mut self, v: &T) -> bool {
+        if self.at(0, v) { self.slots[0] = None; return true; }
+        if self.at(1, v) { self.slots[1] = None; return true; }
+        if self.at(2, v) { self.slots[2] = None; return true; }
+        if self.at(3, v) { self.slots[3] = None; return true; }
+        if self.at(4, v) { self.slots[4] = None; return true; }
+        if self.at(5, v) { self.slots[5] = None; return true; }
+        false
+    }
+    pub(crate) fn len(&self) -> usize {
+        self.slots[0].is_some() as usize + self.slots[1].is_some() as usize + self.slots[2].is_some() as usize
+            + self.slots[3].is_some() as usize + self.slots[4].is_some() as usize + self.slots[5].is_some() as usize
+    }
+}
+
+/// X3 stand-in for std::collections::BinaryHeap in the eviction sampler.
+/// ASSUMED contract: `pop` removes and returns an element e such that no remaining element is greater
+/// than e under `Ord` (which of several equal maxima is returned is unspecified: here the first found).
+/// Six slots, no heap, no loops.
+pub(crate) struct BinaryHeap<T> { slots: [Option<T>; 6] }
+impl<T: Ord + Copy> BinaryHeap<T> {
+    pub(crate) fn new() -> Self { BinaryHeap { slots: [None; 6] } }
+    pub(crate) fn len(&self) -> usize {
+        self.slots[0].is_some() as usize + self.slots[1].is_some() as usize + self.slots[2].is_some() as usize
+            + self.slots[3].is_some() as usize + self.slots[4].is_some() as usize + self.slots[5].is_some() as usize
+    }
+    pub(crate) fn is_empty(&self) -> bool { self.len() == 0 }
+    pub(crate) fn push(&mut self, v: T) {
+        if self.slots[0].is_none() { self.slots[0] = Some(v); return; }
+        if self.slots[1].is_none() { self.slots[1] = Some(v); return; }
+        if self.slots[2].is_none() { self.slots[2] = Some(v); return; }
+        if self.slots[3].is_none() { self.slots[3] = Some(v); return; }
+        if self.slots[4].is_none() { self.slots[4] = Some(v); return; }
+        if self.slots[5].is_none() { self.slots[5] = Some(v); return; }
+        panic!("BinaryHeap stand-in capacity exceeded");
+    }
+    fn better(&self, best: Option<usize>, i: usize) -> Option<usize> {
+        match (&self.slots[i], best) {
+            (None, b) => b,
+            (Some(_), None) => Some(i),
+            (Some(x), Some(b)) => if x.cmp(self.slots[b].as_ref().unwrap()) == std::cmp::Ordering::Greater { Some(i) } else { Some(b) },
+        }
+    }
+    pub(crate) fn pop(&mut self) -> Option<T> {
+        let mut best = None;
+        best = self.better(best, 0); best = self.better(best, 1); best = self.better(best, 2);
+        best = self.better(best, 3); best = self.better(best, 4); best = self.better(best, 5);
+        match best { Some(b) => self.slots[b].take(), None => None }
+    }
+    pub(crate) fn peek(&self) -> Option<&T> {
+        let mut best = None;
+        best = self.better(best, 0); best = self.better(best, 1); best = self.better(best, 2);
+        best = self.better(best, 3); best = self.better(best, 4); best = self.better(best, 5);
+        match best { Some(b) => self.slots[b].as_ref(), None => None }
+    }
 }
